@@ -654,6 +654,41 @@ def run(ctx):
     import json
     drive.for_each_case(ctx, 'related-classes', max(20, ctx.budget), related_classes, gen=lambda c, r: Ty('int'), seconds=60)
 
+    # a global handler registered AFTER a type was first converted serves that type from then on, exactly as it serves a twin type that
+    # is first seen after the registration (once per shard, at the very end: the registration is process-wide and stays)
+    def late_registration():
+        import enum as _enum
+        before = _enum.Enum(f"LateA{next(_serial)}", {'RED': 'red', 'BLUE': 'blue'})
+        before._pv_late = True
+        HolderB = type(f"LateH{next(_serial)}", (env.PaneBase,), {'__annotations__': {'c': before, 'cs': t.List[before]}, 'cs': env.pfield(default_factory=list), '__module__': __name__})
+        early = [observe(env.from_data, 'red', before), observe(HolderB.from_data, {'c': 'red', 'cs': ['blue']}), observe(env.into_data, before.RED, before)]
+        conv = c18.StampConv('late')
+
+        def late_handler(ty, args, *, handlers):
+            return conv if isinstance(ty, type) and getattr(ty, '_pv_late', False) is True else NotImplemented
+        env.m_convert.register_converter_handler(late_handler)
+        after = _enum.Enum(f"LateB{next(_serial)}", {'RED': 'red', 'BLUE': 'blue'})
+        after._pv_late = True
+        HolderA = type(f"LateH{next(_serial)}", (env.PaneBase,), {'__annotations__': {'c': before}, '__module__': __name__})
+        rows = [('the type converted before the registration', lambda: env.from_data('red', before)), ('a twin type first seen afterwards', lambda: env.from_data('red', after)),
+                ('the earlier dataclass holding the earlier type', lambda: HolderB.from_data({'c': 'red', 'cs': ['blue']}).c),
+                ('List of the earlier type', lambda: env.from_data(['red'], t.List[before])[0]), ('a dataclass declared afterwards', lambda: HolderA.from_data({'c': 'red'}).c)]
+        for label, call in rows:
+            o = observe(call)
+            ctx.count('late_registration_checks')
+            served = o.kind == 'value' and isinstance(o.val, c18.Stamp) and o.val.source == 'late'
+            ctx.case(('late-registration', label[:20], served), nontrivial=True)
+            if not served:
+                ctx.violation('handlers-are-those-of-this-use', 'late-registration', 0, {'use': label, 'outcome': o.brief()[:200], 'conversions_before_the_registration': [e.brief()[:60] for e in early]},
+                              mech='global-handler-ignored-for-types-converted-before-registration')
+                return
+
+    try:
+        if ctx.want('late-registration', 0) or True:
+            late_registration()
+    except Exception as e:
+        ctx.crash('late-registration', 0, e)
+
     with mon_lock:
         ctx.count('cache_hits', stats['hits'])
         ctx.count('cache_misses', stats['misses'])
